@@ -44,7 +44,7 @@ func newExec(ld *Loader, db *ContractDB, pkg *Pkg, cf *ContractFile, specs *Spec
 		tenv: map[string]string{}, typeParams: map[string]bool{}, adts: map[string]adtSpec{}, localSpec: map[string]localSig{},
 		strLits: map[string]Term{}, opts: map[string]string{}, assumed: map[string]bool{},
 		closures: map[types.Object]*ast.FuncLit{}, knownFns: map[string]knownFn{}, tags: map[string]Term{},
-		spawnedRepeatedly: map[*ast.FuncLit]bool{}, usedAfter: map[types.Object]bool{}, wfSeen: map[string]bool{}, typeParamObjs: map[string]*types.TypeParam{}, mapSorts: map[string]string{}}
+		spawnedRepeatedly: map[*ast.FuncLit]bool{}, usedAfter: map[types.Object]bool{}, wfSeen: map[string]bool{}, typeParamObjs: map[string]*types.TypeParam{}, mapSorts: map[string]string{}, tenvObj: map[*types.TypeParam]string{}}
 	return x
 }
 
